@@ -73,9 +73,13 @@ class moduint(object):
     def __lshift__(self, y):
         if isinstance(y, moduint):
             cls = self.maxcast(y)
-            return cls(self.arg << y.arg)
+            y = y.arg
         else:
-            return self.__class__(self.arg << y)
+            cls = self.__class__
+        if y >= cls.size:
+            # every bit is shifted out (do not build the huge intermediate)
+            return cls(0)
+        return cls(self.arg << y)
     def __mod__(self, y):
         if isinstance(y, moduint):
             cls = self.maxcast(y)
@@ -109,9 +113,12 @@ class moduint(object):
     def __rlshift__(self, y):
         if isinstance(y, moduint):
             cls = self.maxcast(y)
-            return cls(y.arg << self.arg)
+            y = y.arg
         else:
-            return self.__class__(y << self.arg)
+            cls = self.__class__
+        if self.arg >= cls.size:
+            return cls(0)
+        return cls(y << self.arg)
     def __rmod__(self, y):
         if isinstance(y, moduint):
             cls = self.maxcast(y)
@@ -164,7 +171,15 @@ class moduint(object):
     def __rpow__(self, v):
         return v**self.arg
     def __pow__(self, v):
-        return self.__class__(self.arg**v)
+        if isinstance(v, moduint):
+            cls = self.maxcast(v)
+            v = v.arg
+        else:
+            cls = self.__class__
+        if v < 0:
+            raise ValueError('negative exponent')
+        # modular exponentiation: the exact power may have billions of digits
+        return cls(pow(self.arg, v, cls.limit))
 
 class modint(moduint):
     def __init__(self, arg):
